@@ -505,4 +505,41 @@ example : MetaSource fdemo [60, 61] := .fresh _ (by decide)
 /-- the source has exactly the constructor sites the three cases cover -/
 theorem C10_meta_sources_extracted : Gen.META_SOURCE_SITES = [2, 2] := by decide
 
+/-! ## where files are opened for writing, where metas are made (extracted) -/
+
+/-- what the extractor found about where files are opened for writing and where metas are made:
+every non-test `open_write` outside `src/directory` is `Segment::open_write(<component>)` with a
+component of the iterator (which opens `self.meta.relative_path(component)` of the meta the
+`Segment` holds), and every `new_segment_meta` call is of a classified kind -/
+theorem C10_open_write_sites_extracted :
+    Gen.OPEN_WRITE_OTHER_SITES = 0 ∧ Gen.SEGMENT_OPEN_WRITE_SITES.all (fun c => decide (c < Gen.NUM_COMPONENTS)) = true ∧
+    Gen.NEW_SEGMENT_META_CALLS.all (fun k => k == 1 || k == 2) = true := by decide
+
+/-- every file a `Segment` opens for writing is listed by the meta it holds (the temp store only
+while it is tracked: it is opened once, right after `new_segment_meta`, where the flag is true) -/
+theorem C10_segment_open_write_is_listed (m : SegMetaM) (c : Nat) (hc : c < Gen.NUM_COMPONENTS)
+    (ht : c = Gen.TEMPSTORE_INDEX → m.includeTemp = true) : relPathM m c ∈ listFilesM m := by
+  unfold listFilesM
+  apply List.mem_map.mpr
+  refine ⟨c, List.mem_filter.mpr ⟨List.mem_range.mpr hc, ?_⟩, rfl⟩
+  by_cases h : c = Gen.TEMPSTORE_INDEX
+  · simp [ht h]
+  · simp [h]
+
+/-- **registration-before-create at the event level, from the code shape**: an `openWrite` issued
+through a `Segment` whose meta is alive (its file list is in the inventory) satisfies the
+discipline of `C10_gc_safe` — whatever names are interned how. With
+`C10_open_write_sites_extracted` (there is no other way to open a file for writing) the
+assumption "a file is opened for writing only while a live meta lists it" is derived. -/
+theorem C10_open_write_through_segment_ok (s : St) (ι : Nat × Nat × Nat → Path) (m : SegMetaM) (c : Nat)
+    (hc : c < Gen.NUM_COMPONENTS) (ht : c = Gen.TEMPSTORE_INDEX → m.includeTemp = true)
+    (hlive : (listFilesM m).map ι ∈ s.live) : okEv s (.openWrite (ι (relPathM m c))) = true := by
+  simp only [okEv, living, List.contains_eq_mem, List.mem_cons, List.mem_flatten, decide_eq_true_eq]
+  exact Or.inr ⟨_, hlive, List.mem_map.mpr ⟨_, C10_segment_open_write_is_listed m c hc ht, rfl⟩⟩
+
+example : relPathM ⟨3, 9, false⟩ 7 ∈ listFilesM ⟨3, 9, false⟩ :=
+  C10_segment_open_write_is_listed _ 7 (by decide) (by decide)
+example : relPathM ⟨3, 9, false⟩ Gen.TEMPSTORE_INDEX ∉ listFilesM ⟨3, 9, false⟩ := by decide
+example : Gen.SEGMENT_OPEN_WRITE_SITES.length = 9 := by decide
+
 end TantivyModel.C10
